@@ -203,7 +203,7 @@ pub fn run(o: &Opts, rec: &mut Recorder) {
         exec(&l, rec);
     }
     let mut r = Rng::new(o.seed ^ 0x5EC0_4D02);
-    let n = o.n(150, 5000);
+    let n = o.n(150, 2500);
     for i in 0..n {
         let big = i % 12 == 5;
         let Some(m) = gen_message_tier(&mut r, rec, big) else { continue };
